@@ -1715,6 +1715,10 @@ inline vf::CaseResult run_case(const vf::RunnerArgs& args, const std::vector<std
         res.pass = false;
         res.signature = f.signature;
         res.message = f.message;
+    } catch (const std::exception& e) {
+        res.pass = false;
+        res.signature = "uncaught_exception";
+        res.message = std::string("an exception escaped from the library: ") + e.what() + "\n--- program ---\n" + in.program_text();
     }
     if (in.token != nullptr) {
         leave(in.token);
@@ -1725,6 +1729,17 @@ inline vf::CaseResult run_case(const vf::RunnerArgs& args, const std::vector<std
         st.evaluations += in.sub_evals; // judged sub-cases (scans, probes, ...) in addition to the program itself
         for (auto& cl : in.classes) { st.cls(cl); }
         if (in.nontrivial && res.pass) {
+            // optional: save non-trivial cases as a seed corpus for the libFuzzer front-end
+            static const char* dump_dir = std::getenv("VF_DUMP_CORPUS");
+            static int dumped = 0;
+            if (dump_dir != nullptr && dumped < 400) {
+                std::string path = std::string(dump_dir) + "/seed_" + args.prop + "_" + std::to_string(args.shard) + "_" + std::to_string(dumped++);
+                FILE* f = std::fopen(path.c_str(), "wb");
+                if (f != nullptr) {
+                    std::fwrite(bytes.data(), 1, bytes.size(), f);
+                    std::fclose(f);
+                }
+            }
             st.nontrivial(vf::fnv1a(in.program_text(100000)));
             std::string key = in.classes.empty() ? std::string("plain") : *in.classes.rbegin();
             if (st.want_sample(key)) { st.sample(key, in.program_text(40)); }
